@@ -2,7 +2,7 @@
 From Coq Require Import List ZArith Bool Lia.
 From BLB Require Import Gen.Consts.
 From BLB Require Cluster.Model.
-From BLB Require Import C14.Model C14.Witness C14.Proofs.
+From BLB Require Import C14.Model C14.Witness C14.Proofs C14.Run C14.Late.
 Import ListNotations.
 Open Scope Z_scope.
 
@@ -31,7 +31,7 @@ Theorem after_move_writes_refused_refuted_in_commit_to_switch_window :
 Proof. exists w_f14. vm_compute. split; reflexivity. Qed.
 Print Assumptions after_move_writes_refused_refuted_in_commit_to_switch_window.
 
-(* [PARTIAL] the three witness schedules replayed on the model with the three repairs: the trichotomy, the content clause and the refusal clause hold at their end (the fixed tree itself was driven through them by the harness); the invariant proof over all schedules is not done *)
+(* [PARTIAL] the three witness schedules replayed on the repaired model (= run_case, /repo HEAD): the trichotomy, the content clause and the refusal clause hold at their end (the fixed tree itself was driven through them by the harness); the invariant proof over all schedules is not done *)
 Theorem repaired_model_survives_the_witness_schedules_partial :
   forallb (fun evs => let st := run_state_fx all_fix init_state evs in tri_ok st && content_ok st && after_ok st) [w_f6; w_f13; w_f14] = true.
 Proof. vm_compute. reflexivity. Qed.
@@ -67,7 +67,7 @@ Print Assumptions checked_commit_requires_unchanged_version.
 (* [FULL] after_move_writes_refused, post-switch state, any state: once the blob's class is not REPLICATED the StatBlob reply makes writeAt return ErrReadOnlyStorageClass without sending anything, Open for writing is refused, and fixVersion on a tract with an RS pointer refuses *)
 Theorem after_switch_writes_refused :
   forall fx st w r cls nt,
-    find_wop (s_wops st) (wo_op w) = Some w -> Cluster.Model.k_kind r = K_StatBlob -> cls <> c14_ClassREPLICATED ->
+    find_wop (s_wops st) (wo_op w) = Some w -> wo_phase w = 1 -> Cluster.Model.k_kind r = K_StatBlob -> cls <> c14_ClassREPLICATED ->
     cli_reply fx st (wo_op w) r [cl_NoError; nt; cls] None = finish_w st w 0 c14_ErrReadOnlyStorageClass.
 Proof. exact stat_refuses. Qed.
 Print Assumptions after_switch_writes_refused.
@@ -80,11 +80,32 @@ Theorem repaired_client_refuses_entry_without_hosts :
 Proof. exact fixed_client_refuses. Qed.
 Print Assumptions repaired_client_refuses_entry_without_hosts.
 
-(* [FULL] move_is_term_bound at the durable steps, any state: AllocateRSChunkIDs, CommitRSChunk and UpdateStorageClass of a round change the durable state only while the term is the one the round captured at its start *)
-Theorem move_is_term_bound :
+(* [FULL] durable steps refuse other terms, any state: CommitRSChunk and UpdateStorageClass of a round change nothing unless the term is the one the round captured at its start *)
+Theorem durable_steps_refuse_other_terms :
   forall fx st op term base hosts tracts blob cls,
     term <> s_term st ->
     commit_rs fx st op term base hosts tracts = (st, cl_ErrLeaderContinuityBroken) /\
     update_class st op term blob cls = (st, cl_ErrLeaderContinuityBroken).
 Proof. exact term_bound. Qed.
+Print Assumptions durable_steps_refuse_other_terms.
+
+(* [FULL] move_is_term_bound, run level, every schedule and every setting of the switches: each durable step of a round that was ever applied (AllocateRSChunkIDs, CommitRSChunk, UpdateStorageClass; logged in s_durlog with the round's term and the term at the moment of the apply) was applied in the term the round captured at its start *)
+Theorem move_is_term_bound :
+  forall fx evs op rterm tapply,
+    In (op, rterm, tapply) (s_durlog (run_state_fx fx init_state evs)) -> rterm = tapply.
+Proof. intros fx evs. exact (durlog_term_bound fx evs). Qed.
 Print Assumptions move_is_term_bound.
+
+(* [FULL] rs_pointer_is_permanent, run level, every schedule: once CommitRSChunk gave a tract an RS pointer no later event (FixVersion, further rounds, class switch, restarts, leader changes) takes it away, so every later GetTracts hides the hosts *)
+Theorem rs_pointer_is_permanent :
+  forall fx evs1 evs2 tk d,
+    dget (run_state_fx fx init_state evs1) tk = Some d -> d_rs d <> None ->
+    exists d', dget (run_state_fx fx init_state (evs1 ++ evs2)) tk = Some d' /\ d_rs d' <> None.
+Proof. exact rs_pointer_permanent. Qed.
+Print Assumptions rs_pointer_is_permanent.
+
+(* [PARTIAL] after_move_writes_refused, run level, every schedule, repaired client (fx14), clients without location cache: a write that starts when its tract already has an RS pointer (s_late collects such acknowledgements) is never acknowledged. Missing for the full clause: writers holding cached locations from before the commit, which are fenced by replica versions, see not_yet_proved *)
+Theorem after_move_writes_refused_partial :
+  forall fx evs, fx14 fx = true -> s_late (run_state_fx fx init_state evs) = [].
+Proof. exact no_late_ack. Qed.
+Print Assumptions after_move_writes_refused_partial.
